@@ -7,7 +7,6 @@
 package py
 
 import (
-	"fmt"
 	"math"
 	"math/big"
 	"strconv"
@@ -47,11 +46,32 @@ func FloatNew(metatype *Type, args Tuple, kwargs StringDict) (Object, error) {
 	return MakeFloat(xObj)
 }
 
-func (a Float) M__str__() (Object, error) {
-	if i := int64(a); Float(i) == a {
-		return String(fmt.Sprintf("%d.0", i)), nil
+// FloatRepr returns the shortest text that converts back to f, spelled
+// as python spells it (float_repr_style 'short')
+func FloatRepr(f float64) string {
+	switch {
+	case math.IsNaN(f):
+		return "nan"
+	case math.IsInf(f, 1):
+		return "inf"
+	case math.IsInf(f, -1):
+		return "-inf"
 	}
-	return String(fmt.Sprintf("%g", a)), nil
+	// shortest digits in d.ddde[+-]xx form to find the decimal exponent
+	e := strconv.FormatFloat(f, 'e', -1, 64)
+	exp, _ := strconv.Atoi(e[strings.IndexByte(e, 'e')+1:])
+	if exp < -4 || exp >= 16 {
+		return e
+	}
+	res := strconv.FormatFloat(f, 'f', -1, 64)
+	if !strings.ContainsRune(res, '.') {
+		res += ".0"
+	}
+	return res
+}
+
+func (a Float) M__str__() (Object, error) {
+	return String(FloatRepr(float64(a))), nil
 }
 
 func (a Float) M__repr__() (Object, error) {
